@@ -7,7 +7,7 @@
      on signals by (p . X) n = sum_k p_k X(n-k).  Y is the response of f to X up to time N
      when  den . Y = num . X  at every time 0 <= n < N  (the difference equation).
    Definitions only. *)
-From Coq Require Import List Bool ZArith QArith Qcanon.
+From Coq Require Import List Bool ZArith QArith Qcanon String.
 From AL Require Import Base.CaseLib C07.Model C07.Spec C05.Model.
 Import ListNotations.
 Open Scope Qc_scope.
@@ -31,16 +31,19 @@ Definition q_inv (a : frac) : frac := (snd a, fst a).
 Definition q_div (a b : frac) : frac := q_mul a (q_inv b).
 Fixpoint q_pow (a : frac) (n : nat) : frac :=
   match n with O => q_const 1 | S m => q_mul (q_pow a m) a end.
-(* the value of p at z^-1 := g : sum_k p_k g^k, negative k through 1/g *)
+(* the value of p (a polynomial in z^-1) at z := g : sum_k p_k g^(-k), through 1/g *)
 Definition is_zero (p : poly) : bool := match p with [] => true | _ => false end.
 Definition q_zpow (a : frac) (k : Z) : option frac :=
   if (0 <=? k)%Z then Some (q_pow a (Z.to_nat k))
   else if is_zero (fst a) then None else Some (q_pow (q_inv a) (Z.to_nat (- k))).
+Definition q_at_step (g : frac) (acc : option frac) (e : Z * Qc) : option frac :=
+  match acc, q_zpow g (- fst e) with
+  | Some s, Some t => Some (q_add s (q_mul (q_const (snd e)) t))
+  | _, _ => None
+  end.
+(* the terms taken in ascending order of the power *)
 Definition q_at (p : poly) (g : frac) : option frac :=
-  fold_right (fun e acc => match acc, q_zpow g (fst e) with
-                           | Some s, Some t => Some (q_add s (q_mul (q_const (snd e)) t))
-                           | _, _ => None
-                           end) (Some (q_const 0)) p.
+  fold_left (q_at_step g) (sort_asc p) (Some (q_const 0)).
 
 (* a fraction exists when its denominator is not the zero polynomial *)
 Definition defined (a : option frac) : option frac :=
@@ -70,7 +73,9 @@ Fixpoint sem (e : fexpr) : option frac :=
   | FDivS a c => obind (sem a) (fun s => if Qc_eqb c 0 then None else Some (q_mul s (q_const (1 / c))))
   | FSDiv c a => obind (sem a) (fun s => defined (Some (q_div (q_const c) s)))
   | FPow a n => obind (sem a) (fun s => q_zpow s n)
+  (* a(b): a is a function of z^-1, so z := 0 (b the zero function) has no value *)
   | FCall a b => obind (sem a) (fun s => obind (sem b) (fun t =>
+                   if is_zero (fst t) then None else
                    obind (q_at (fst s) t) (fun u => obind (q_at (snd s) t) (fun v =>
                      defined (Some (q_div u v))))))
   end.
@@ -100,6 +105,13 @@ Definition causal_okb (f : filt) : bool :=
 (* every filter object: well-formed polynomials, lowest denominator power 0 *)
 Definition filt_ok (f : filt) : Prop := wf (fnum f) /\ wf (fden f) /\ min_key (fden f) = Some 0%Z.
 
+(* reduce(operator.mul, filters) : the product filter object of a cascade *)
+Definition cascade_product (fs : list filt) : res filt :=
+  match fs with
+  | [] => Raise "TypeError"
+  | f :: r => fold_left (fun acc g => bind acc (fun a => fmul a g)) r (Ok f)
+  end.
+
 (* f applied n times *)
 Fixpoint iter_run (f : filt) (n : nat) (x : list Qc) : res (list Qc) :=
   match n with O => Ok x | S m => bind (iter_run f m x) (frun f) end.
@@ -110,3 +122,9 @@ Definition delayed (k : nat) (x : list Qc) : list Qc := firstn (List.length x) (
 Definition resp_b (n d : poly) (x y : list Qc) : bool :=
   Nat.eqb (List.length y) (List.length x) &&
   forallb (fun i => Qc_eqb (act d (sig y) (Z.of_nat i)) (act n (sig x) (Z.of_nat i))) (seq 0 (List.length x)).
+
+(* ------------------------------------------------------------------ linearize *)
+(* sum over terms with possibly fractional powers of  coefficient * G power *)
+Definition fdot (t : fterms) (G : Qc -> Qc) : Qc := fold_right (fun e acc => snd e * G (fst e) + acc) 0 t.
+(* gain at z = 1 *)
+Definition dc (p : poly) : Qc := dot p (fun _ => 1).
